@@ -2,7 +2,7 @@
 from core import *
 from pslib import *
 
-RULE = ("for N in {1,2,3,5,8,13}, one key with chosen discrete logs and one key from KeyPair::new: messages over the edge "
+RULE = ("for N in {1,2,3,5,8,13,17,34}, one key with chosen discrete logs and one key from KeyPair::new: messages over the edge "
         "set and random, plus messages solved so that x + <y,m> = 0; signatures from sign (random h) and crafted from "
         "bytes; chains of randomize / blind_and_randomize / unblind (right and wrong factor) with scripted randomisers "
         "in {random, 1, 0}; every single-coordinate message change; changes of X~, g~ and each Y~j; blind / blind-sign "
@@ -11,7 +11,7 @@ RULE = ("for N in {1,2,3,5,8,13}, one key with chosen discrete logs and one key 
 TRUSTED = ["theorems C07_* are over an arbitrary field; correspondence ops: sign, sig_verify, sig_randomize, sig_bar, "
            "bsig_unblind, msg_blind, vbm_sim + vbm_sign"]
 ASSUMPTIONS = ["bls12_381 pairing is bilinear and non-degenerate on prime-order groups (the monitor evaluates the relation with it)"]
-NS = [1, 2, 3, 5, 8, 13]
+NS = [1, 2, 3, 5, 8, 13, 17, 34]
 
 
 def ipq(a, b):
@@ -156,7 +156,7 @@ def chain_case(run, h, batch, rng, key, start, mkind):
             run.check_corr("corr.C07.verify", bool(r[0]) == got, dict(pc, model=r[0]))
         batch.add("r_verify %s %s %s %s" % (coq_pk(pk), zlist(ms2), zlit(cur_d[0]), zlit(cur_d[1])), cmp)
 
-    coords = range(n) if (n <= 5 or run.tier == "thorough") else sorted(rng.sample(range(n), 3))
+    coords = pick_coords(rng, n, 3, run.tier == "thorough")
     for j in coords:
         ms2 = list(ms)
         ms2[j] = (ms[j] + rng.choice([1, Q - 1, rand_nz(rng)])) % Q
